@@ -20,7 +20,7 @@ Theorem hand_modelled_sources_unchanged_C02 : PinsC02.pins = [
   ("src/pendulum/__init__.py::local"%string, "9429f7b664ff05667a6f"%string);
   ("src/pendulum/__init__.py::naive"%string, "6653e66c268d176405ab"%string);
   ("src/pendulum/parser.py::parse"%string, "d696868c9735427664f0"%string);
-  ("src/pendulum/parser.py::_parse"%string, "d40523039d688e682e47"%string);
+  ("src/pendulum/parser.py::_parse"%string, "73897f7e0482fd280005"%string);
   ("src/pendulum/datetime.py::DateTime.instance"%string, "3e74631050336544fb66"%string);
   ("src/pendulum/datetime.py::DateTime.in_timezone"%string, "74b9581d5aa34ff6af90"%string);
   ("src/pendulum/datetime.py::DateTime.add"%string, "f9e0754e563c868f30d8"%string)].
